@@ -415,6 +415,15 @@ def normalise(fn, world=None, modname=None, cls=None, primitives=(),
         if expand_yield_from_genexp(fn):
             ast.fix_missing_locations(fn)
             info["inlined"] = info["inlined"] + ["<yield-from-genexp>"]
+    if any(isinstance(n, ast.For) and isinstance(n.iter, ast.Name)
+           for n in ast.walk(fn)) and any(
+               isinstance(n, ast.Assign) and isinstance(n.value, ast.List)
+               for n in ast.walk(fn)):
+        fn_ = acopy(fn)
+        if expand_conditional_lists(fn_):
+            fn = fn_
+            ast.fix_missing_locations(fn)
+            info["inlined"] = info["inlined"] + ["<conditional-list>"]
     if detable:
         from . import unroll as _un
         from .unroll import detable as _detable
@@ -620,5 +629,195 @@ def expand_yield_from_genexp(fn):
                 continue
             out.append(s)
         return out
+    fn.body = block(fn.body)
+    return cnt[0]
+
+
+def expand_conditional_lists(fn):
+    """A list built by a display and (conditional) appends, then iterated
+    once:
+
+        L = [a]; if c: L.append(b); for x in L: BODY
+    is written as
+        x = a; BODY; if c: x = b; BODY
+
+    Only when L is used for nothing else, the conditions are plain names /
+    attribute chains that nothing in between or in BODY assigns, and BODY has
+    no break / continue / else of its own.  (The elements are then evaluated
+    where they are used rather than where the list is built; the rules that
+    rely on this form look at what is sent and when, not at which point a
+    constructor would refuse its argument.)  Returns the number of rewrites;
+    fn is modified in place."""
+    cnt = [0]
+
+    def loads(node, name):
+        return [n for n in ast.walk(node) if isinstance(n, ast.Name)
+                and n.id == name]
+
+    def appended(s, L):
+        """[(cond or None, element)] when s only appends to L."""
+        if isinstance(s, ast.Expr) and isinstance(s.value, ast.Call) and \
+                isinstance(s.value.func, ast.Attribute) and isinstance(
+                    s.value.func.value, ast.Name) and \
+                s.value.func.value.id == L and not s.value.keywords:
+            c = s.value
+            if c.func.attr == "append" and len(c.args) == 1:
+                return [(None, c.args[0])]
+            if c.func.attr == "extend" and len(c.args) == 1 and isinstance(
+                    c.args[0], (ast.List, ast.Tuple)):
+                return [(None, e) for e in c.args[0].elts]
+            return None
+        if isinstance(s, ast.AugAssign) and isinstance(
+                s.op, ast.Add) and isinstance(s.target, ast.Name) and \
+                s.target.id == L and isinstance(s.value, (ast.List,
+                                                          ast.Tuple)):
+            return [(None, e) for e in s.value.elts]
+        if isinstance(s, ast.If) and not s.orelse and _is_chain(s.test):
+            out = []
+            for b in s.body:
+                r = appended(b, L)
+                if r is None or any(c is not None for c, _ in r):
+                    return None
+                out += [(s.test, e) for _, e in r]
+            return out
+        return None
+
+    def _is_chain(e):
+        while isinstance(e, ast.Attribute):
+            e = e.value
+        return isinstance(e, ast.Name)
+
+    def has_own_jump(body):
+        def walk(stmts, depth):
+            for s in stmts:
+                if isinstance(s, (ast.Break, ast.Continue)) and depth == 0:
+                    return True
+                if isinstance(s, (ast.FunctionDef, ast.AsyncFunctionDef,
+                                  ast.ClassDef)):
+                    continue
+                d2 = depth + (1 if isinstance(s, (ast.For, ast.While,
+                                                  ast.AsyncFor)) else 0)
+                for fld in ("body", "orelse", "finalbody"):
+                    sub = getattr(s, fld, None)
+                    if isinstance(sub, list) and sub and isinstance(
+                            sub[0], ast.stmt) and walk(
+                                sub, d2 if fld == "body" else depth):
+                        return True
+                for h in getattr(s, "handlers", []):
+                    if walk(h.body, depth):
+                        return True
+            return False
+        return walk(body, 0)
+
+    def stored(stmts):
+        out = set()
+        for s in stmts:
+            for n in ast.walk(s):
+                if isinstance(n, ast.Name) and isinstance(
+                        n.ctx, (ast.Store, ast.Del)):
+                    out.add(n.id)
+                elif isinstance(n, ast.Attribute) and isinstance(
+                        n.ctx, (ast.Store, ast.Del)):
+                    out.add(ast.unparse(n))
+        return out
+
+    def try_at(stmts, i):
+        s0 = stmts[i]
+        if not (isinstance(s0, ast.Assign) and len(s0.targets) == 1 and
+                isinstance(s0.targets[0], ast.Name) and isinstance(
+                    s0.value, ast.List) and not any(
+                        isinstance(e, ast.Starred) for e in s0.value.elts)):
+            return None
+        L = s0.targets[0].id
+        elems = [(None, e) for e in s0.value.elts]
+        between = []
+        j = i + 1
+        while j < len(stmts):
+            s = stmts[j]
+            if isinstance(s, ast.For) and isinstance(
+                    s.iter, ast.Name) and s.iter.id == L:
+                break
+            r = appended(s, L)
+            if r is not None:
+                elems += r
+            elif loads(s, L):
+                return None
+            else:
+                between.append(s)
+            j += 1
+        else:
+            return None
+        loop = stmts[j]
+        if loop.orelse or has_own_jump(loop.body) or not isinstance(
+                loop.target, ast.Name):
+            return None
+        # L used nowhere else
+        total = len(loads(fn, L))
+        here = sum(len(loads(s, L)) for s in stmts[i:j]) + 1
+        if total != here or loads(ast.Module(loop.body, []), L):
+            return None
+        changed = stored(between) | stored(loop.body)
+        for c, e in elems:
+            names = {n.id for n in ast.walk(e) if isinstance(n, ast.Name)}
+            if c is not None:
+                names |= {ast.unparse(c)} | {
+                    n.id for n in ast.walk(c) if isinstance(n, ast.Name)}
+            if names & changed:
+                return None
+        out = list(between)
+        x = loop.target.id
+        uses = [n for b in loop.body for n in ast.walk(b)
+                if isinstance(n, ast.Name) and n.id == x]
+        once = len(uses) == 1 and isinstance(uses[0].ctx, ast.Load) and \
+            not any(isinstance(n, (ast.For, ast.While, ast.Lambda,
+                                   ast.ListComp, ast.GeneratorExp))
+                    for b in loop.body for n in ast.walk(b))
+
+        class _SubX(ast.NodeTransformer):
+            def __init__(self, e):
+                self.e = e
+
+            def visit_Name(self, n):
+                if n.id == x and isinstance(n.ctx, ast.Load):
+                    return acopy(self.e)
+                return n
+        for c, e in elems:
+            if once:
+                blk = [_SubX(e).visit(acopy(b)) for b in loop.body]
+            else:
+                blk = [ast.copy_location(ast.Assign(
+                    [ast.Name(x, ast.Store())], acopy(e)), loop)]
+                blk += [acopy(b) for b in loop.body]
+            if c is not None:
+                blk = [ast.copy_location(ast.If(acopy(c), blk, []), loop)]
+            out += blk
+        for x in out:
+            ast.fix_missing_locations(x)
+        return j, out
+
+    def block(stmts):
+        stmts = list(stmts)
+        i = 0
+        while i < len(stmts):
+            r = try_at(stmts, i)
+            if r is not None:
+                j, new = r
+                stmts[i:j + 1] = new
+                cnt[0] += 1
+                continue
+            i += 1
+        for s in stmts:
+            if isinstance(s, (ast.FunctionDef, ast.AsyncFunctionDef,
+                              ast.ClassDef)):
+                continue
+            for fld in ("body", "orelse", "finalbody"):
+                sub = getattr(s, fld, None)
+                if isinstance(sub, list) and sub and isinstance(
+                        sub[0], ast.stmt):
+                    setattr(s, fld, block(sub))
+            if isinstance(s, ast.Try):
+                for h in s.handlers:
+                    h.body = block(h.body)
+        return stmts
     fn.body = block(fn.body)
     return cnt[0]
